@@ -457,7 +457,7 @@ def gen_explainer_plan(rng, prop, focus, long=False, **kw):
 # ----------------------------------------------------------------------------------------------
 
 def gen_batch_config(rng, arith=None, names_kind=None, classes=None):
-    arith = arith or wchoice(rng, [("exact", 70), ("float", 30)])
+    arith = arith or wchoice(rng, [("exact", 62), ("fraction", 8), ("float", 30)])
     d = wchoice(rng, [(1, 10), (2, 30), (3, 30), (4, 20), (5, 10)])
     names, nk = gen_names(rng, d, names_kind)
     model = gen_model(rng, d, arith, allow=("linear", "hash", "inter", "const", "multi", "zerosum"))
